@@ -377,6 +377,13 @@ Theorem C01_bioseq_init_hook : forall d i nt,
 Proof. exact bioseq_init_hook. Qed.
 Print Assumptions C01_bioseq_init_hook.
 
+(* ... and an SJSON file that was appended to cannot be read any more (two JSON documents are not JSON: ValueError) *)
+Theorem C01_sjson_append_unreadable : forall b1 b2,
+  exists c, bind (write_w Sjson b1) (fun c1 => write_file Sjson true c1 b2) = Ok c
+            /\ read_bytes Sjson (content_text c) = Err E_Value /\ read_content Sjson c = Err E_Value.
+Proof. exact sjson_append_unreadable. Qed.
+Print Assumptions C01_sjson_append_unreadable.
+
 (* ---- comment / blank lines are removable ---- *)
 (* deleting every ";" line of a FASTA file changes nothing of what is read ... *)
 Theorem C01_fasta_comments_removable : forall ls st, iter_fasta st (filter not_comment ls) = iter_fasta st ls.
